@@ -17,7 +17,8 @@ CFG = {
                           'Dlis.C04.empty_set_no_record', 'Dlis.C04.fileHeader_parses', 'Dlis.run_invariants',
                           'Dlis.Obligations.eflrTypes_eq']),
     'C18': dict(theorems=['Dlis.C18.logical_files_isolated', 'Dlis.C18.shared_set_rejected',
-                          'Dlis.C18.frames_independent', 'Dlis.run_invariants']),
+                          'Dlis.C18.frames_independent', 'Dlis.C18.reference_closure_isolated',
+                          'Dlis.C07.foreign_reference_refused', 'Dlis.run_invariants']),
     'C20': dict(theorems=['Dlis.C20.rejected_call_is_identity', 'Dlis.C20.rejected_leaves_objects',
                           'Dlis.C20.later_copy_numbers_unaffected', 'Dlis.C20.history_without_rejected_calls',
                           'Dlis.C20.later_files_unaffected', 'Dlis.C20.refused_check_leaves_assignment',
